@@ -53,6 +53,10 @@ class PipeScenario(Scenario):
             return up.filter(lambda x: True)
         if name == "flatten":
             return up.map(lambda x: (x,)).flatten()
+        if name == "flatten2":       # two pieces per element: (x, 'a') then (x, 'b')
+            return up.map(lambda x: ((x, "a"), (x, "b"))).flatten()
+        if name == "accumulate_nostart":    # first element takes the "state is no_default" branch
+            return up.accumulate(lambda s, x: x)
         if name == "pluck":
             return up.map(lambda x: (x,)).pluck(0)
         if name == "accumulate":
